@@ -4,7 +4,7 @@
 set -u
 WT="$1"; OUT="$2"; DEMO="${3:-seeded_demo}"
 cd "$WT" || exit 2
-git checkout -q -- . && git clean -qfd -e target -e Cargo.lock
+git reset -q && git checkout -q -- . && git clean -qfd -e target -e Cargo.lock
 git apply "$OUT/patch.diff" || { echo "patch does not apply"; exit 2; }
 echo "## suite with patch"
 cargo test --workspace --no-fail-fast --offline 2>&1 | grep -E "^test result|FAILED|panicked" | sort | uniq -c | head -20
@@ -12,7 +12,7 @@ cp "$OUT/$DEMO.rs" tests/$DEMO.rs
 if [ -n "${DEMO_FLAGS:-}" ]; then echo "## nightly pattern tests with patch"; cargo +nightly test --offline --features pattern --test pattern_tests 2>&1 | grep -E "^test result"; fi
 echo "## demo with patch (expect FAIL)"
 ${DEMO_CARGO:-cargo} test --offline ${DEMO_FLAGS:-} --test $DEMO -- --test-threads=1 2>&1 | grep -E "^test result|^test .*(FAILED|ok)$" | head -10
-git checkout -q -- src Cargo.toml 2>/dev/null
+git reset -q; git checkout -q -- src Cargo.toml 2>/dev/null; git clean -qfd src
 echo "## demo without patch (expect ok)"
 ${DEMO_CARGO:-cargo} test --offline ${DEMO_FLAGS:-} --test $DEMO -- --test-threads=1 2>&1 | grep -E "^test result|^test .*(FAILED|ok)$" | head -10
 rm -f tests/$DEMO.rs
